@@ -842,7 +842,12 @@ def rule_e(ctx: Context, R: Reporter):
                     ok_all = False
                     continue
                 on_resume = cfg.reaches(load_node.id, d.node.id)
-                if d.node.id == load_node.id and d.value is not None:
+                load_calls = [c for c in ast.walk(load_node.ast) if isinstance(c, ast.Call)] if getattr(load_node, "ast", None) is not None else []
+                loader_quals = {t.qualname for c in load_calls for t in ctx.res.call_targets(fi, c) if isinstance(t, FuncInfo)}
+                is_loader_call = isinstance(d.value, ast.Call) and bool(loader_quals) and \
+                    {t.qualname for t in ctx.res.call_targets(fi, d.value) if isinstance(t, FuncInfo)} <= loader_quals and \
+                    bool([t for t in ctx.res.call_targets(fi, d.value) if isinstance(t, FuncInfo)])
+                if (d.node.id == load_node.id or (on_resume and is_loader_call)) and d.value is not None:
                     # t0 is what the loader itself hands back: its returned value must read the restored counter
                     ri = _returns_restored_iter(ctx, fi, d.value)
                     detail.append((unparse(d.value), ri))
@@ -1477,6 +1482,16 @@ def variants():
         Variant("e-fresh-after-load", "bad", insert_after(core, "SamplerCore.run_sampling", "self._initialize_from_resume(resume_state_path)", "self._initialize_fresh()"), ["C08.e"]),
         Variant("e-unguarded-default", "bad", replace_expr(core, "SamplerCore.load_sampler_state", "self.state.get_current(key) is None", "key is not None"), ["C08.e"]),
         Variant("e-t0-zero-on-resume", "bad", replace_stmt(core, "SamplerCore.run_sampling", "t0 = int(iter_val) if iter_val is not None else 0", "t0 = 0"), ["C08.e"]),
+        # t0 handed back by the loader itself: accepted when what it returns reads the restored counter, reported when it does not
+        Variant("e-benign-t0-returned-by-loader", "benign", chain(
+            replace_stmt(core, "SamplerCore._initialize_from_resume", "self.t0 = t0", "self.t0 = t0\nreturn self.t0"),
+            replace_stmt(core, "SamplerCore.run_sampling", "t0 = int(iter_val) if iter_val is not None else 0", "t0 = self._initialize_from_resume(resume_state_path)")), quick=True),
+        Variant("e-t0-returned-by-loader-is-constant", "bad", chain(
+            replace_stmt(core, "SamplerCore._initialize_from_resume", "self.t0 = t0", "self.t0 = t0\nreturn 0"),
+            replace_stmt(core, "SamplerCore.run_sampling", "t0 = int(iter_val) if iter_val is not None else 0", "t0 = self._initialize_from_resume(resume_state_path)")), ["C08.e"], quick=True),
+        Variant("e-t0-returned-attribute-stored-from-constant", "bad", chain(
+            replace_stmt(core, "SamplerCore._initialize_from_resume", "self.t0 = t0", "self.t0 = 0\nreturn self.t0"),
+            replace_stmt(core, "SamplerCore.run_sampling", "t0 = int(iter_val) if iter_val is not None else 0", "t0 = self._initialize_from_resume(resume_state_path)")), ["C08.e"]),
         Variant("f-drop-final-guard", "bad", replace_expr(core, "SamplerCore.run_sampling", "save_every is not None", "save_every is None"), ["C08.f"]),
         Variant("f-cadence-no-t0", "bad", replace_expr(core, "SamplerCore.execute_iteration", "(iter_val - t0) % int(save_every) == 0", "iter_val % int(save_every) == 1"), ["C08.f"], quick=True),
         Variant("benign-rename-d", "benign", alpha_rename(core, "SamplerCore.load_sampler_state", "d", "payload"), quick=True),
